@@ -9,7 +9,7 @@ checks = {
  "C02": ("exploration", "lock-step twin simulation MemoryFS vs PhysicalFS(tmpfs) with pairwise outcome and snapshot comparison", "7/C02",
          "The same generated history (incl. wrong-type calls, reader seek/read scripts, boundary-size and non-UTF-8 payloads) runs on an empty MemoryFS and an empty PhysicalFS; success/failure, named error classes where demanded, returned data and full snapshots must agree after every step."),
  "C03": ("exploration", "seeded search over unrestricted histories with a model-free tree invariant evaluated on full snapshots after every step", "7/C03",
-         "Unrestricted call domain (file calls on directories, directory calls on files, wrong-typed transfers) on all stacks incl. pre-populated overlays; after every step root is a directory, every existing path has an existing directory parent and is reached by walk_dir(root)."),
+         "Unrestricted call domain (file calls on directories, directory calls on files, wrong-typed transfers) on all stacks incl. pre-populated overlays; after every step root is a directory, every existing path has an existing directory parent and is reached by walk_dir(root). Pre-populated overlays include directories of a higher layer over same-named files of a deeper layer; a quarter of the overlay histories start with wrong-typed removals of pre-populated non-empty directories."),
  "C04": ("exploration", "seeded write/seek/flush scripts with short-read/short-write/EINTR perturbation, Cursor-based byte oracle", "7/C04",
          "Write sessions (create/append, seeks, flushes, handles kept open across steps with flush visibility), copy/move/copy-up on all stacks with boundary-length, >64KiB, ~200KiB and non-UTF-8 payloads; fresh readers with buffer sizes 1..65536; legal I/O perturbations injected between layers must not change any byte."),
  "C05": ("exploration", "seeded search over unrestricted histories with a model-free cross-observer consistency invariant (incl. walk order)", "7/C05",
@@ -21,19 +21,19 @@ checks = {
  "C09": ("exploration", "seeded search over histories on pre-populated overlays, refinement check against the union model", "7/C09",
          "Model initialised with the upper-shadows-lower union of generated type-consistent layer contents (1-4 layers, same path in several layers with different bytes), then C01's oracle with a mix biased to create-over-lower, remove-with-lower-children, append-to-lower."),
  "C10": ("exploration", "removal/re-creation cycle workload with tombstone, freshness and marker-hygiene monitors", "7/C10",
-         "1-4 cycles of removals (file, empty dir, remove_dir_all of lower subtrees), unrelated operations and re-creation with same/other type on 2-4 layer overlays; after every later step removed paths and former descendants are invisible to all six observers, re-created entries hold only new content, no listing/walk yields a bookkeeping name. In a third of the runs one re-creation is made to fail by an injected I/O error of an underlying call (a failed re-creation re-creates nothing), and part of the runs are replayed, with the same failure and seeded Pending injection, through the async overlay. An operation that needs its target to exist (append, read, remove, copy/move source, time setter) and succeeds on a removed, not re-created entry is reported as well."),
+         "1-4 cycles of removals (file, empty dir, remove_dir_all of lower subtrees), unrelated operations and re-creation with same/other type on 2-4 layer overlays; after every later step removed paths and former descendants are invisible to all six observers, re-created entries hold only new content, no listing/walk yields a bookkeeping name. In a third of the runs one re-creation is made to fail by an injected I/O error of an underlying call (a failed re-creation re-creates nothing), and part of the runs are replayed, with the same failure and seeded Pending injection, through the async overlay. The injected failure may also hit a removal: a removal the contract refuses (non-empty directory) that reports success under the failure counts as a removal of the whole subtree. An operation that needs its target to exist (append, read, remove, copy/move source, time setter) and succeeds on a removed, not re-created entry is reported as well."),
  "C11": ("exploration", "seeded search over source trees and ordered filesystem pairs, refinement check against a two-filesystem model", "7/C11",
          "copy/move/copy_dir/move_dir/create_dir_all/remove_dir_all between same instance (fast paths), two instances of one backend and two different stacks; return values, both filesystems' full snapshots and refusal of existing destinations without side effects."),
  "C12": ("exploration", "error monitor over failing calls with disjoint inner/outer name pools", "7/C12",
          "Every Err of every call and every walk item in failure-heavy histories on adapter stacks: path is not the placeholder, lies in the caller's namespace at/above/below receiver or destination, Display leaks no inner name; not-found / file-exists / directory-exists / invalid-path / not-supported classes where the statement demands them. In a third of the runs one underlying call of one operation (biased to composites) fails with an injected I/O error; the error of that step must satisfy the same path rules (classification is judged on fault-free steps only) and the run ends there. A third of the runs are replayed through the async port (same failure, seeded Pending injection, inside a tokio runtime): every error of AsyncVfsPath and the async adapters obeys the same rules (the text of a runtime I/O error itself is exempt from the name rule: async-std puts host paths there)."),
  "C13": ("exploration", "unrestricted call sequences with environment, I/O and stale-handle faults under catch_unwind", "7/C13",
-         "All backends incl. EmbeddedFS and type-conflicting overlay layers; hostile joins, root calls, wrong-type calls, extreme seek offsets, zero-length buffers, handles kept across removals; on-disk non-UTF-8 names, dangling symlinks, entries removed behind the library; k-th-call I/O errors (one-shot/sticky), short I/O, EINTR. Any panic in a call, handle call, observer or drop is a violation."),
+         "All backends incl. EmbeddedFS and type-conflicting overlay layers; hostile joins, root calls, wrong-type calls, extreme seek offsets, zero-length buffers, handles kept across removals; on-disk non-UTF-8 names, dangling symlinks, unix-socket files, symlinks to themselves and to siblings, entries removed behind the library (each often followed by a direct look at the entry); k-th-call I/O errors (one-shot/sticky), short I/O, EINTR. Any panic in a call, handle call, observer or drop is a violation."),
  "C14": ("exploration", "handle call scripts compared call by call with std::io::Cursor (count feedback), publish check at flush/drop", "7/C14",
          "read(n)/seek(Start|Current|End, off)/write/flush scripts on handles of every backend and adapter (EmbeddedFS readers included), offsets around 0, +-len, +-2^40, zero-length reads, writes past the end; short I/O and EINTR injected below adapters."),
  "C15": ("exploration", "lock-step sync/async twin simulation under seeded poll schedules (Pending injection in every inner future, stream and handle poll)", "7/C15",
          "The same history (C01/C09 domain plus reader scripts, walk_dir and composite operations) runs on a sync stack and on two async twins built from the same spec and the same listing-order seeds; a PendFS wrapper at every layer boundary makes inner futures, listing streams (between items) and handle polls return Pending 0-3 times with two different densities; outcomes, error classes, stream items (walk: multiset + parent before child), reader results and full snapshots are compared after every step, the two poll schedules with each other, and on memory-backed stacks every Pending must be an injected one (bounded progress)."),
  "C16": ("exploration", "controlled thread scheduler at lock-acquisition granularity (hooked RwLock), linearizability against sequential runs of the real code", "7/C16",
-         "Small programs (2-3 threads, <= 9 API calls: create_dir, create_file/append sessions as open+write+drop, remove_file, remove_dir, exists, metadata, read_dir, open+read on <= 4 overlapping paths, optional initial content) run on real threads under a baton scheduler that decides which thread passes each MemoryFS lock acquisition (seeded uniform and PCT depth 1-3, 60 schedules per program); the concurrent per-call results and final snapshot must equal those of some program-order-respecting sequential order, all of which are executed on a fresh MemoryFS; panics, deadlock (all threads blocked) and livelock (> 20000 decisions) are violations."),
+         "Small programs (2-3 threads, <= 9 API calls: create_dir, create_file/append sessions as open+write+drop, remove_file, remove_dir, exists, metadata, read_dir, open+read on <= 4 overlapping paths, optional initial content) run on real threads under a baton scheduler that decides which thread passes each MemoryFS lock acquisition (seeded uniform and PCT depth 1-3, 60 schedules per program); the concurrent per-call results and final snapshot must equal those of some program-order-respecting sequential order, all of which are executed on a fresh MemoryFS; panics, deadlock (all threads blocked) and livelock (> 20000 decisions) are violations. A fifth of the programs are observer-vs-replacer races: one thread looks at an entry or its parent (metadata, exists, read_dir, read) while the other removes it and creates an entry of the other type with content at the same path."),
  "C17": ("exploration", "controlled thread scheduler at lock (MemoryFS) and trait-call (SimFS boundary) granularity over concurrent create_dir_all programs", "7/C17",
          "2-4 threads each calling create_dir_all (sometimes twice) on paths of depth 1-4 that share prefixes of every length, optional pre-existing prefixes, on Mem, Altroot(Mem), Overlay(Mem..) at lock granularity (writer-preferring lock model: a nested read acquisition behind a waiting writer is a deadlock) and PhysicalFS / Altroot(Phys) / Overlay(Phys,Mem) at trait-call and syscall granularity (vsim defines mkdir/rmdir/unlink/rename itself, yields to the scheduler and forwards to the real function, so the scheduler serialises the syscalls and runs replay); every call must return Ok and afterwards every requested path and ancestor is a directory. Half of the overlay programs start after a finished sequential history in which directories of the chain that live in a lower layer were removed through the overlay (and sometimes partly re-created), so that the threads create below deletion markers."),
  "C19": ("exploration", "time-mode histories with a shadow metadata oracle (no wall clock in any comparison)", "7/C19",
